@@ -88,6 +88,10 @@ pub enum PeerAct {
 	Drop,
 	/// send bytes that are not a valid WebSocket frame (the server terminates the session)
 	Garbage,
+	/// an unsolicited Pong control frame (legal at any time, must not affect the session)
+	Pong,
+	/// a Ping control frame (the server answers with a Pong)
+	Ping,
 }
 
 #[derive(Clone, Debug, PartialEq)]
@@ -109,6 +113,8 @@ pub enum RawWsAct {
 	ReservedOpcode,
 	/// keep the socket open and idle
 	Idle,
+	/// a call to `slow`, whose handler parks at scheduling points
+	SlowCall,
 }
 
 #[derive(Clone, Debug)]
@@ -142,11 +148,14 @@ pub struct SrvCfg {
 	pub max_resp: u32,
 	/// ... and subscription ids that are strings at least this wide (0 = small numeric ids)
 	pub wide_ids: usize,
+	/// server-side WebSocket pings every so many (virtual) milliseconds; a peer that has not answered by the next tick
+	/// is closed for inactivity (inactive_limit 0, max_failures 1)
+	pub ping_ms: Option<u64>,
 }
 
 impl Default for SrvCfg {
 	fn default() -> Self {
-		SrvCfg { conns: vec![], scripts: vec![], stop: false, stop_twice: false, drop_handles: false, max_subs: 16, max_conns: 16, buffer: 16, slow_steps: 1, connect_points: false, tcp: false, max_resp: 0, wide_ids: 0 }
+		SrvCfg { conns: vec![], scripts: vec![], stop: false, stop_twice: false, drop_handles: false, max_subs: 16, max_conns: 16, buffer: 16, slow_steps: 1, connect_points: false, tcp: false, max_resp: 0, wide_ids: 0, ping_ms: None }
 	}
 }
 
@@ -311,6 +320,11 @@ fn server_cfg(c: &SrvCfg) -> ServerConfig {
 	let mut b = ServerConfig::builder().max_subscriptions_per_connection(c.max_subs).max_connections(c.max_conns).set_message_buffer_capacity(c.buffer);
 	if c.max_resp > 0 {
 		b = b.max_response_body_size(c.max_resp);
+	}
+	if let Some(ms) = c.ping_ms {
+		b = b.enable_ws_ping(
+			jsonrpsee_server::PingConfig::new().ping_interval(std::time::Duration::from_millis(ms)).inactive_limit(std::time::Duration::ZERO).max_failures(1),
+		);
 	}
 	if c.wide_ids > 0 {
 		b.set_id_provider(crate::srv::WideCounterIds(c.wide_ids, std::sync::atomic::AtomicU64::new(1))).build()
@@ -582,6 +596,14 @@ async fn ws_peer<IO: tokio::io::AsyncRead + tokio::io::AsyncWrite + Unpin + Send
 				// dropping sender and receiver closes the duplex
 				break;
 			}
+			PeerAct::Pong | PeerAct::Ping => {
+				let payload: &[u8] = b"hb";
+				let data = soketto::data::ByteSlice125::try_from(payload).unwrap();
+				let r = if act == PeerAct::Pong { sender.send_pong(data).await } else { sender.send_ping(data).await };
+				let f = sender.flush().await;
+				sched::log(format!("c{c}:tx:{}{}", if act == PeerAct::Pong { "PONG" } else { "PING" }, if r.is_err() || f.is_err() { ":failed" } else { "" }));
+				None
+			}
 			PeerAct::Garbage => {
 				sched::log(format!("c{c}:tx:GARBAGE"));
 				// a text frame with invalid UTF-8 is a protocol error
@@ -752,6 +774,12 @@ async fn raw_ws_peer<IO: tokio::io::AsyncRead + tokio::io::AsyncWrite + Unpin + 
 				let _ = io.write_all(&masked_frame(3, b"x")).await;
 			}
 			RawWsAct::Idle => {}
+			RawWsAct::SlowCall => {
+				n += 1;
+				let body = json!({"jsonrpc":"2.0","id": format!("c{n}"), "method":"slow","params":[n]}).to_string();
+				sched::log(format!("c{c}:tx:{body}"));
+				let _ = io.write_all(&masked_frame(1, body.as_bytes())).await;
+			}
 		}
 	}
 	// keep the socket open (never closes it): read whatever the server sends until it closes
